@@ -373,7 +373,7 @@ class ParseSpec:
                 elif ins.tag == "array":
                     tref = X.resolve_type(spec, ins.type)
                     sort, elem = elem_sort(tref)
-                    if sort is None or tref.kind == "bool":
+                    if sort is None:
                         raise X.SpecError("array element type outside the fragment")
                     # a fresh name for the entry state (quantifier patterns must not contain if-terms)
                     entry = ex.fresh("entry_" + ins.name, RS)
